@@ -58,7 +58,9 @@ def vmf_ml(x, w, min_concentration, max_concentration):
     norm = math.sqrt(float(r @ r))
     mean = r / norm if norm > 0 else r
     r_bar = norm / float(np.sum(w))
-    kappa = (r_bar * D - r_bar ** 3) / (1 - r_bar ** 2)
+    den = 1 - r_bar ** 2
+    # (all observations on one ray: resultant length one, concentration at its bound)
+    kappa = (r_bar * D - r_bar ** 3) / den if den > 0 else math.inf
     kappa = min(max(kappa, min_concentration), max_concentration)
     return mean, kappa, r_bar
 
